@@ -241,6 +241,20 @@ def run(ctx):
       replayed += 1
       if np.isposinf(want) != bool(np.isposinf(g2[0] if g2.size > 1 else g2.sum())) or np.any(np.isnan(g2)):
         ctx.violation(f'xent-value:{nm}:inf', f'{nm} on logits {logits} target {tgt} (first token): accum {g2.tolist()}, the token loss is {want}', replay={'logits': [str(x) for x in logits], 'target': tgt})
+  # a MASKED position contributes nothing, whatever its loss: here the masked (padding) target's own class has a -inf
+  # logit, so its token loss is +inf; the sequence statistics are those of the other positions
+  pred_m = np.array([[ninf, 1.0, 2.0], [ninf, 0.5, 0.0], [ninf, 0.0, 3.0]], np.float32)
+  tgt_m = np.array([1, 0, 2], np.int32)
+  lp_m = log_softmax64(pred_m)
+  want_tok = [-lp_m[0, 1], -lp_m[2, 2]]
+  for mm, nm, want_acc, want_w in ((metrics.SequenceTokenCrossEntropyLoss(masked_target_values=(0,)), 'SequenceTokenCrossEntropyLoss', sum(want_tok), 2.0),
+                                   (metrics.SequenceCrossEntropyLoss(masked_target_values=(0,)), 'SequenceCrossEntropyLoss', sum(want_tok), 1.0)):
+    stm = mm.evaluate_example({'y': jnp.array(tgt_m)}, jnp.array(pred_m))
+    replayed += 1
+    ctx.case(key=('xent-masked-inf', nm), nontrivial=True)
+    if not (np.isfinite(float(stm.accum)) and abs(float(stm.accum) - want_acc) <= 1e-5 * (1 + want_acc) and float(stm.weight) == want_w):
+      ctx.violation(f'xent-value:{nm}:masked-inf', f'{nm} with a masked position whose own class has a -inf logit: accum {float(stm.accum)} weight {float(stm.weight)}, '
+                    f'the unmasked positions give {want_acc} / {want_w}', replay={'target': tgt_m.tolist(), 'masked': [0]})
   # per-domain statistics of a base metric whose statistic is not a scalar: shape (domains,) + base shape, the example's
   # domain holds the base statistic, every other domain zero
   for base_name, base, key0 in (('ConfusionMatrix', metrics.ConfusionMatrix(num_classes=C), 'confusion'), ('SequenceTokenAccuracy(per_position)', metrics.SequenceTokenAccuracy(masked_target_values=(0,), per_position=True), 'tok_acc_pp')):
